@@ -9,7 +9,7 @@ LEVEL = "exploration"
 RULE = (
     "case = one font written by the real pipeline: all 13 colour formats x .ttf/.otf, sources from the generators of "
     "C01 (paint-rich), C02 (shared shapes -> multi-glyph SVG documents and glyph reshuffle), C03 and C04 (hostile sequences, "
-    "bitmaps), some with a coloured .notdef (gid gap -> several CBDT runs, SVG document for gid 0).  Each file is loaded "
+    "bitmaps), one case in sixty a variable font built by the CLI from C18's master generator, some with a coloured .notdef (gid gap -> several CBDT runs, SVG document for gid 0).  Each file is loaded "
     "lazy=False, fully decompiled, re-saved and reloaded (table-by-table XML equality) and its raw bytes are parsed by "
     "struct-level validators for COLR v0/v1 records, SVG document index + XML cross references, CBLC/CBDT index runs, "
     "sbix, and glyph-set agreement of cmap/hmtx/loca|CFF/maxp/post incl. the post-format rule.  Non-trivial = font with a "
@@ -23,7 +23,52 @@ def plan(tier, seed):
     return [{"id": f"{seed}-{i}", "i": i} for i in range(N[tier])]
 
 
+def run_vf(case):
+    """A variable font written by the real CLI (write_font per master -> write_variable_font), validated like any other."""
+    import shutil
+
+    import toml
+
+    from vf.checks import c18
+    from vf.drive import cli
+    from vf.oracle import structure
+
+    r = common.rng(ID, "vf", case["seed"], case["i"])
+    spec = c18.gen(r)
+    keep = r.random() < 0.5
+    res = {"counters": {}, "violations": [], "tags": ["variable-font", "glyf_colr_1", "names" if keep else "nonames"]}
+    root = common.mkscratch("c07vf-")
+    try:
+        names = ["emoji_u%x.svg" % (0x1F600 + g) for g in range(len(spec["glyphs"]))]
+        cfg = {"output_file": "VF.ttf", "color_format": "glyf_colr_1", "upem": spec["upem"], "ascender": spec["asc"], "descender": spec["desc"], "width": spec["upem"], "clip_to_viewbox": False, "keep_glyph_names": keep,
+               "axis": {tag: {"name": nm_, "default": spec["default"][tag]} for tag, nm_ in spec["axes"]}, "master": {}}
+        for m, loc in enumerate(spec["locations"]):
+            d = root / spec["names"][m]
+            d.mkdir(parents=True)
+            for g, n in enumerate(names):
+                (d / n).write_text(c18.svg_for(spec, g, m))
+            cfg["master"][spec["names"][m]] = {"style_name": "M%d" % m, "position": dict(loc), "srcs": [f"{spec['names'][m]}/*.svg"]}
+        (root / "vf.toml").write_text(toml.dumps(cfg))
+        rcode, out = cli.nanoemoji(["--build_dir", str(root / "build"), "vf.toml"], root, cli.env_for(events=root / "ev.jsonl"), timeout=600)
+        if rcode != 0:
+            res["counters"]["vf_build_failed"] = 1  # C18 owns "compatible masters build"; nothing to validate here
+            return res
+        data = (root / "build" / "VF.ttf").read_bytes()
+        problems, facts = structure.validate(data, keep_glyph_names=keep)
+        for p in problems:
+            res["violations"].append({"what": "variable font: " + p, "keep_glyph_names": keep, "config": {k: v for k, v in cfg.items() if k not in ("master",)}})
+        res["counters"]["fonts"] = 1
+        res["counters"]["variable_fonts"] = 1
+        res["nontrivial"] = True
+        res["key"] = common.sha(data)
+    finally:
+        shutil.rmtree(root, ignore_errors=True)
+    return res
+
+
 def run_case(case):
+    if case["i"] % 60 == 59:
+        return run_vf(case)
     from vf.checks import c01, c02, c03, c04, render_common as rc
     from vf.drive import inproc
     from vf.oracle import structure
@@ -113,7 +158,7 @@ def run_case(case):
 def finish(agg):
     c = agg["counters"]
     inc = []
-    for k in ("fonts_with_colr", "fonts_with_svg_docs", "fonts_with_cblc_bitmaps", "fonts_with_sbix", "cblc_multi_run_fonts"):
+    for k in ("fonts_with_colr", "fonts_with_svg_docs", "fonts_with_cblc_bitmaps", "fonts_with_sbix", "cblc_multi_run_fonts", "variable_fonts"):
         if c.get(k, 0) == 0:
             inc.append(f"deciding monitor/branch never reached: {k}")
     from vf.checks.c04 import ALL_FORMATS
